@@ -186,6 +186,16 @@ def check_model(spec, res, ctx, only=None):
     n_unstable_impl = kinds.count("UNSTABLE")
     if n_unstable_impl != cls["num_unstable"]:
         bad("unstable_count", "oracle counts %d unstable roots, implementation %d" % (cls["num_unstable"], n_unstable_impl))
+    # the non-zero finite roots are the same for every valid first-order stacking of the model
+    try:
+        ev_impl = np.abs(np.array(m.get_eigenvalues(), dtype=complex))
+        a = np.sort(ev_impl[(ev_impl > 1e-7) & (ev_impl < 1e7)])
+        mo = np.array(cls["moduli"], dtype=float)
+        b = np.sort(mo[(mo > 1e-7) & (mo < 1e7)])
+        if a.shape != b.shape or not np.allclose(a, b, rtol=1e-6, atol=1e-9):
+            bad("eigenvalues", "moduli of the finite non-zero roots: implementation %s, companion pencil %s" % (np.round(a, 6).tolist(), np.round(b, 6).tolist()))
+    except Exception as e:
+        bad("eigenvalues", "%s: %s" % (type(e).__name__, str(e)[:200]), error=type(e).__name__)
     if cls["kind"] != "determinate":
         return
     ss = own_steady(spec)
